@@ -399,7 +399,7 @@ def run_primitives(ctx, spec):
             ctx.case(repr((base, op)), nontrivial=True)
             # the same primitive followed directly by check(fix=True), WITHOUT the careful caller's refresh in
             # between: check(fix=True) promises a valid mesh whatever the primitive left behind
-            if op[0] in ('delete_connection', 'delete+add_connection', 'delete_column', 'add_node', 'add+delete_node'):
+            if op[0] in ('delete_connection', 'delete+add_connection', 'add_existing_connection', 'delete_column', 'add_node', 'add+delete_node'):
                 geo = geoops.base(base)
                 op2 = geoops.enumerate_primitives(geo, ctx.rng)[i]
                 case2 = {'base': base, 'ops': [op2, ['check_fix']], 'primitive_then_check_fix': True, 'primitive_index': i}
